@@ -14,8 +14,9 @@ def build_X(case, part=None):
     if kind in ("token", "ngram"):
         return [list(d) for d in docs]
     if kind == "timed":
-        sh = float(src.get("shift", 0.0))
-        return [[(t, ticks / 8.0 + sh) for t, ticks in d] for d in docs]
+        # the clock: timestamp = tick/8 * unit + shift (unit 1 when absent)
+        sh, unit = float(src.get("shift", 0.0)), float(src.get("unit", 1.0))
+        return [[(t, ticks / 8.0 * unit + sh) for t, ticks in d] for d in docs]
     if kind == "multi":
         return [[list(ms) for ms in d] for d in docs]
     raise ValueError(kind)
@@ -36,7 +37,8 @@ def live_past(m, case):
             m.fit_transform(Xh)
         state.append("fit")
         if hist.get("transform") is not None:
-            m.transform(build_X(case, {"docs": hist["transform"], "shift": hist.get("shift", 0.0)}))
+            m.transform(build_X(case, {"docs": hist["transform"], "shift": hist.get("shift", 0.0),
+                                       "unit": hist.get("unit", 1.0)}))
             state.append("transform")
     except Exception as e:
         state.append(type(e).__name__)
@@ -123,7 +125,8 @@ def run(case):
         # later use of the fitted estimator: transform (after an optional unrelated transform call)
         try:
             if then.get("ignored") is not None:
-                m.transform(build_X(case, {"docs": then["ignored"], "shift": then.get("shift", 0.0)}))
+                m.transform(build_X(case, {"docs": then["ignored"], "shift": then.get("shift", 0.0),
+                                           "unit": then.get("unit", 1.0)}))
             T = m.transform(X if then["docs"] == "same" else build_X(case, then))
             out["then"] = matrix_out(T)
             out["then"]["vocab"] = {str(k): int(v) for k, v in m.token_label_dictionary_.items()}
